@@ -38,7 +38,9 @@ Proof. exact restart_partial. Qed.
 Theorem C11_coherent_restart : forall s, Coherent s -> oteq (view (load_all (restart s))) (view (load_all s)).
 Proof. exact coherent_restart. Qed.
 (* ... hence for all layer contents and all histories over the operations of [coh_op]
-   (the read-only ones, MKDIR, CREATE, MKNOD, SYMLINK, UNLINK; with or without tree walks in between): *)
+   (the read-only ones, MKDIR, CREATE, MKNOD, SYMLINK, UNLINK, RMDIR, OPEN with every flag, WRITE, CHMOD,
+   TRUNCATE, SETXATTR / REMOVEXATTR of names other than the opaque markers; not LINK; with or without
+   tree walks in between): *)
 Theorem C11_restart_partial_mkdir : forall u ls nx ops, Forall layer_ok (u :: ls) -> coh_history ops = true ->
   let s := run_dumps ops (load_all (fresh (Some u) ls nx)) in
   oteq (view (load_all (restart s))) (view (load_all s)).
